@@ -224,7 +224,7 @@ func runC15(c *config) {
 	// constructed terminators whose target lists grow after the constructor returned (cases appended to a switch,
 	// targets to an indirectbr, handlers to a catchswitch, indirect targets to a callbr): the first Succs() call
 	// lists what the fields hold then
-	for variant := 0; variant < 4; variant++ {
+	for variant := 0; variant < 6; variant++ {
 		m := ir.NewModule()
 		callee := m.NewFunc("callee", types.Void)
 		f := m.NewFunc("f", types.Void, ir.NewParam("x", types.I32))
@@ -245,12 +245,25 @@ func runC15(c *config) {
 		case 2:
 			cs := bs[0].NewCatchSwitch(constant.None, []*ir.Block{bs[1]}, bs[5])
 			cs.Handlers = append(cs.Handlers, bs[2], bs[3])
-		default:
+		case 3:
 			cb := bs[0].NewCallBr(callee, nil, bs[1], bs[2])
 			cb.OtherRetTargets = append(cb.OtherRetTargets, bs[3], bs[4])
+		case 4:
+			// the optional unwind target absent ("unwind to caller"): no successor, no slot for it
+			pad := bs[0].NewCleanupPad(constant.None)
+			t := bs[0].NewCleanupRet(pad, nil)
+			for _, op := range t.Operands() {
+				if op == nil || *op == nil || fmt.Sprintf("%v", reflect.ValueOf(*op).IsNil()) == "true" {
+					o.Fail("succs_are_targets", "", "cleanupret without unwind target exposes an operand slot that holds nothing", map[string]string{"term": "cleanupret"})
+				}
+			}
+		default:
+			bs[0].NewCatchSwitch(constant.None, []*ir.Block{bs[1]}, nil)
 		}
 		o.Stat("constructed_then_extended")
-		c15Succs(c, f)
+		if oc, msg := guard(func() error { c15Succs(c, f); return nil }); oc != ocOk {
+			o.Fail("succs_are_targets", "", "Succs() of a constructed terminator holds something that is no block (the walk over it panics)", map[string]string{"term": fmt.Sprintf("variant %d", variant), "msg": msg})
+		}
 	}
 	o.StatN("kinds_reached", len(kinds))
 	var ks []string
